@@ -297,9 +297,26 @@ OneBranch(M, tv) ==
                  [] F.kind = "objmap" /\ a.k = "map" /\ Known(a) -> \A key \in DOMAIN a.mels : OneBranch(SubOf(F), a.mels[key])
                  [] OTHER -> TRUE
 
-\* unmapped (excluded) top-level Go fields
-Unmapped(M, obj) == {n \in DOMAIN obj.f : n \notin {M.ohold[k][1] : k \in DOMAIN M.ohold} /\ \A i \in DOMAIN M.fields : M.fields[i].gopath = <<>> \/ M.fields[i].gopath[1] # n}
-MaskUnmapped(M, obj) == St([n \in DOMAIN obj.f |-> IF n \in Unmapped(M, obj) THEN Nil ELSE obj.f[n]])
+\* unmapped (excluded) Go fields: at the top level of the struct and, through the holders of messages embedded by value
+\* (whose fields are flattened into this message and which the converter never replaces as a whole), at any depth
+IsPrefixOf(p, q) == Len(p) <= Len(q) /\ SubSeq(q, 1, Len(p)) = p
+CoveredPath(M, p) == (\E i \in DOMAIN M.fields : IsPrefixOf(p, M.fields[i].gopath)) \/ (\E k \in DOMAIN M.ohold : IsPrefixOf(p, M.ohold[k]))
+EmbedHolderPath(M, p) == \E i \in DOMAIN M.fields : Len(M.fields[i].gopath) > Len(p) /\ IsPrefixOf(p, M.fields[i].gopath)
+RECURSIVE MaskU(_, _, _)
+MaskU(M, st, prefix) ==
+  St([n \in DOMAIN st.f |-> LET p == prefix \o <<n>>
+                            IN IF ~CoveredPath(M, p) THEN Nil
+                               ELSE IF EmbedHolderPath(M, p) /\ st.f[n].t = "st" THEN MaskU(M, st.f[n], p) ELSE st.f[n]])
+MaskUnmapped(M, obj) == MaskU(M, obj, <<>>)
+\* the unmapped paths whose value differs between two states of the same struct
+RECURSIVE UnmappedDiff(_, _, _, _)
+UnmappedDiff(M, pre, post, prefix) ==
+  UNION {LET p == prefix \o <<n>>
+         IN IF ~CoveredPath(M, p) THEN (IF pre.f[n] # post.f[n] THEN {p} ELSE {})
+            ELSE IF EmbedHolderPath(M, p) /\ pre.f[n].t = "st" /\ post.f[n].t = "st" THEN UnmappedDiff(M, pre.f[n], post.f[n], p)
+            ELSE {} : n \in DOMAIN post.f}
+RECURSIVE DotJoin(_)
+DotJoin(p) == IF p = <<>> THEN "" ELSE "." \o Head(p) \o DotJoin(Tail(p))
 
 ---------------------------------------------------------------------------
 \* C05  null and unknown reset the target, whatever it held; excluded fields untouched
@@ -362,7 +379,7 @@ C05(ctx) ==
   \cup (IF ~ctx.pn /\ HasError(ctx.dg) THEN {VG("C05.noerror", ctx.M.path)} ELSE {})
   \cup (IF ctx.pn THEN {} ELSE C05Sites(ctx.M, ctx.tf, ctx.obj, ""))
   \cup (IF ctx.pn THEN {} ELSE
-         {VG("C05.excluded_untouched", ctx.M.path \o "." \o n) : n \in {x \in Unmapped(ctx.M, ctx.obj) : ctx.obj.f[x] # ctx.pre.f[x]}})
+         {VG("C05.excluded_untouched", ctx.M.path \o DotJoin(p)) : p \in UnmappedDiff(ctx.M, ctx.pre, ctx.obj, <<>>)})
 
 \* a conforming input in the sense of C05: every level well formed (payloads under null / unknown included
 \* as far as they are present)
